@@ -85,3 +85,23 @@ PROPS["C15"] = dict(
     assumptions=["moved-from objects are only destroyed or assigned to",
                  "entry writes to a tridiagonal solver after its first solve are not generated (stored data are factors)"],
 )
+
+PROPS["C17"] = dict(
+    harness="c17_gridindex", flavour="asan",
+    quick=dict(workers=8, cases=20000, min_nontrivial=300),
+    thorough=dict(workers=16, cases=2000000, min_nontrivial=1500, budget_s=3000),
+    rule="PolarGrid(radii, angles[, split]) with nr 2..65 (uniform / geometric / random-ratio / midpoint-nested radii, "
+         "R0/Rmax from 1e-8 to 0.5), ntheta 2..64 even, powers of two and not (uniform, mirrored non-uniform, "
+         "midpoint-nested angles with antipodal partners by construction), automatic split or explicit split below R0, "
+         "above Rmax, exactly on a radius, on Rmax, or anywhere between; unwrapped angular indices in +-1e6 and at "
+         "INT_MIN/INT_MAX; every grid is coarsened repeatedly down to the smallest grid and each coarse grid re-checked; "
+         "5 kinds of inadmissible input (25% of 1 in 4 cases) must be rejected with std::invalid_argument. "
+         "Non-trivial: ntheta not a power of two, or an explicit/extreme split. Distinct: (nr, ntheta, #circles, split mode).",
+    technique="property-based testing (rapidcheck) with exhaustive per-grid node marking; round-trip and reference-formula oracles under ASan/UBSan",
+    level_text="For each generated grid all N nodes are marked to prove index/multiIndex are mutually inverse bijections "
+               "onto 0..N-1 on that grid; fast vs reference functions, 64-bit wrap arithmetic, neighbour/spacings vs the "
+               "coordinate arrays and the documented split relation are checked, and the whole chain of coarse grids "
+               "too. Exploration over generated grids.",
+    level_note="Trusted: the oracle formulas in harness/c17_gridindex.cpp (64-bit modulo, coordinate differences).",
+    assumptions=["angles without antipodal partner / non-monotone arrays are inadmissible and must raise std::invalid_argument"],
+)
